@@ -2427,7 +2427,10 @@ impl Formatter {
     if self.html {
       format!("<span class=\"mech-argument\"><span class=\"mech-argument-name\">{}</span><span class=\"mech-argument-expression\">{}</span></span>",n,e)
     } else {
-      format!("{}{}", n, e)
+      match name {
+        Some(_) => format!("{}: {}", n, e),
+        None => e,
+      }
     }
   }
 
